@@ -18,7 +18,7 @@ func C18(r *core.Report) {
 		"R1 the result channel's capacity is len(jobs) of the very slice whose elements are launched (workers never block on it, so Wait returns and the channel is closed); " +
 		"R2 every path through a worker performs exactly one send attempt on the result channel; R3 the channel is closed only by the closer goroutine, after Wait; " +
 		"R4 every receive from the result channel either leads to the success return under err == nil or records the error in the slice that the failure return yields (no received failure is dropped), the success return's value comes from a received result, and no other success return exists; " +
-		"R5 findEpochNumberFromSignature maps the outcome to not-found only when all job errors are ErrNotFound and the per-epoch job classifies a failed sig-exists read as an error. Not decided: scheduler fairness, termination of the jobs themselves."
+		"R5 findEpochNumberFromSignature maps the outcome to not-found only when all job errors are ErrNotFound and the per-epoch job classifies a failed sig-exists read as an error. R6 job independence - no return of a per-epoch job is decided by a condition reading state that the jobs themselves write (shared flags, counters): a job's verdict depends on its own epoch only. Not decided: scheduler fairness, termination of the jobs themselves."
 	f := r.Anchor("C18.R1", "main.FirstSuccess")
 	if f == nil {
 		return
@@ -247,6 +247,8 @@ func C18(r *core.Report) {
 		r.Check(fromRecv, "C18.R4", fmt.Sprintf("%s#success-return@%d", f.Key, i), pos(r, rn.Ast), "the success value is that of a received job outcome", "a success return yields a value that no job produced")
 	}
 	c18Classification(r)
+	c18JobIndependence(r)
+	r.Floor("C18.R6", 1)
 	r.Floor("C18.R2", 2)
 	r.Floor("C18.R3", 1)
 	r.Floor("C18.R4", 2)
@@ -341,5 +343,99 @@ func c18Classification(r *core.Report) {
 			}
 			r.Check(okErr, rule, lit.Key+"#sig-exists-error-propagated", pos(r, as), "a failed sig-exists read is reported as an error of that epoch", "a failed sig-exists read is not reported as an error: the epoch is treated as not containing the signature")
 		}
+	}
+}
+
+// c18JobIndependence (C18.R6): the verdict of a per-epoch job depends only on that epoch. A job that writes state shared
+// with the other jobs (an outer variable assigned, incremented or updated through Store/Add/Swap/CompareAndSwap/Set) and
+// decides one of its returns on a condition reading that state can answer not-found because another job got there first,
+// although its own epoch holds the signature.
+func c18JobIndependence(r *core.Report) {
+	const rule = "C18.R6"
+	p := r.Prog
+	f := r.Anchor(rule, "main.(*MultiEpoch).findEpochNumberFromSignature")
+	if f == nil {
+		return
+	}
+	info := f.Pkg.TypesInfo
+	n := 0
+	for _, lit := range f.Lits {
+		// the job literals are the ones returning (uint64, error)
+		if lit.Type.Results == nil || len(lit.Type.Results.List) != 2 {
+			continue
+		}
+		if t := info.TypeOf(lit.Type.Results.List[1].Type); t == nil || !core.IsErrorType(t) {
+			continue
+		}
+		n++
+		outer := func(o types.Object) bool {
+			v, ok := o.(*types.Var)
+			return ok && !v.IsField() && v.Pkg() == f.Pkg.Types && (o.Pos() < lit.Lit.Pos() || o.Pos() >= lit.Lit.End()) && o.Parent() != f.Pkg.Types.Scope()
+		}
+		written := map[types.Object]string{}
+		ast.Inspect(lit.Body, func(m ast.Node) bool {
+			switch s := m.(type) {
+			case *ast.AssignStmt:
+				if s.Tok == token.DEFINE {
+					return true
+				}
+				for _, l := range s.Lhs {
+					root := l
+					for {
+						switch x := core.Unparen(root).(type) {
+						case *ast.IndexExpr:
+							root = x.X
+							continue
+						case *ast.SelectorExpr:
+							root = x.X
+							continue
+						case *ast.StarExpr:
+							root = x.X
+							continue
+						}
+						break
+					}
+					if o := core.ObjOf(info, root); o != nil && outer(o) && !core.IsErrorType(o.Type()) {
+						written[o] = "assigned"
+					}
+				}
+			case *ast.IncDecStmt:
+				if o := core.ObjOf(info, s.X); o != nil && outer(o) {
+					written[o] = "incremented"
+				}
+			case *ast.CallExpr:
+				if sel, ok := core.Unparen(s.Fun).(*ast.SelectorExpr); ok {
+					switch sel.Sel.Name {
+					case "Store", "Add", "Swap", "CompareAndSwap", "Set", "Do":
+						if o := core.ObjOf(info, sel.X); o != nil && outer(o) {
+							written[o] = "updated through " + sel.Sel.Name
+						}
+					}
+				}
+			}
+			return true
+		})
+		g := p.Graph(lit)
+		bad := ""
+		var badAt ast.Node
+		for _, rn := range g.Returns() {
+			for _, fc := range g.FactsAt(rn) {
+				for o, how := range written {
+					if core.Mentions(info, fc.Expr, o) && bad == "" {
+						bad = fmt.Sprintf("the return at %s is decided by [%s], which reads %s, a variable shared by all jobs and %s inside the job", p.Rel(rn.Ast.Pos()), core.ExprStr(fc.Expr), o.Name(), how)
+						badAt = rn.Ast
+					}
+				}
+			}
+		}
+		k := fmt.Sprintf("%s#job-verdict-independent-of-other-jobs", lit.Key)
+		if bad == "" {
+			r.OK(rule, k, posP(r, lit.Pos()), fmt.Sprintf("no return of the job depends on state written by jobs (%d shared variables written)", len(written)))
+		} else {
+			r.Violation(rule, k, pos(r, badAt), bad+": a job can report not-found because another job ran first, although its own epoch holds the signature")
+		}
+	}
+	if n == 0 {
+		r.Undecided(rule, f.Key+"#jobs", posP(r, f.Pos()), "no per-epoch job literal found")
 	}
 }
